@@ -47,6 +47,12 @@ impl<'a> Ctx<'a> {
     }
     pub fn note_err(&mut self, e: &sourcemap::Error) {
         *self.errors.entry(error_class(e)).or_default() += 1;
+        // errors are values the caller formats and inspects
+        self.call("Error Display/Debug/source");
+        let a = format!("{e}");
+        let b = format!("{e:?}");
+        let c = std::error::Error::source(e).map(|s| s.to_string().len()).unwrap_or(0);
+        self.digest.u64((a.len() + b.len() + c) as u64);
     }
     fn note_str(&mut self, s: Option<&str>) {
         match s {
@@ -59,7 +65,22 @@ impl<'a> Ctx<'a> {
     }
 }
 
-const NAMES: [&str; 8] = ["function", "a", "foo", "x", "", "1abc", "é", "alert"];
+const NAMES: [&str; 18] = ["function", "a", "foo", "x", "", "1abc", "é", "alert", "$", "_a$1", "a\u{200d}b", "\u{200d}a", "𝒳y", "a١", "١a", "日本", "$_𝒳\u{200d}é", "aé"];
+/// strip_prefixes tables shared by the regular, Hermes and index rewrites
+const PREFIXES: [&[&str]; 12] = [
+    &[],
+    &["~"],
+    &["a"],
+    &["/abs/", "http://h/", "~"],
+    &["root/"],
+    &["", "~"],
+    &["é"],
+    &["src", "lib/"],
+    &["/srv/app"],
+    &["/srv/app/", "~"],
+    &["/srv/app/src/é.js"],
+    &["C:\\p\\", "/"],
+];
 const POS_EXTREMES: [u32; 5] = [0, 1, 1 << 31, u32::MAX - 1, u32::MAX];
 
 fn token_touch(cx: &mut Ctx, t: &Token) {
@@ -101,6 +122,8 @@ fn token_touch(cx: &mut Ctx, t: &Token) {
         if t.get_dst_col() % 7 == 0 {
             cx.call("SourceView::line_count (embedded contents)");
             cx.digest.u64(sv.line_count() as u64);
+            cx.call("SourceView::lines (embedded contents)");
+            cx.digest.u64(sv.lines().map(str::len).sum::<usize>() as u64);
             cx.call("SourceView::sourcemap_reference (embedded contents)");
             cx.digest.u64(sv.sourcemap_reference().map(|r| r.is_some()).unwrap_or(false) as u64);
         }
@@ -154,10 +177,11 @@ fn views<'v>(cx: &mut Ctx, sm: &'v SourceMap, extra: &'v [SourceView]) -> Vec<&'
 
 pub fn make_views(cx: &mut Ctx) -> Vec<SourceView> {
     let mut v = vec![SourceView::new(cx.script_text.into())];
-    let seeded = match cx.rng.below(4) {
+    let seeded = match cx.rng.below(5) {
         0 => "function foo(a){return a}\nvar x=function(){};foo(1)".to_string(),
         1 => String::new(),
         2 => "👌 function é(){}\r\n\r".to_string(),
+        3 => "function $_𝒳\u{200d}é(){};function 日本(a١){return _a$1}".to_string(),
         _ => "function a(){function b(){}}".repeat(3),
     };
     v.push(SourceView::from_string(seeded));
@@ -288,6 +312,62 @@ pub fn regular(cx: &mut Ctx, sm: &SourceMap, full: bool) {
         let s = format!("{sm:?}");
         cx.digest.u64(s.len() as u64);
     }
+    if on(6) && ntok >= 2 {
+        // a minified text laid out from the map itself: for adjacent same-line tokens (i-1, i)
+        // put the keyword `function` at the column of token i-1 and an identifier at the column
+        // of token i (when there is room), then ask for that identifier at token i. This is the
+        // only way the resolution's success path (and its cached same-line walk) is reached.
+        for _ in 0..3 {
+            let i = 1 + cx.rng.below_usize(ntok - 1);
+            cx.call("SourceMap::get_token");
+            if let (Some(a), Some(b)) = (sm.get_token(i - 1), sm.get_token(i)) {
+                let (la, ca) = a.get_dst();
+                let (lb, cb) = b.get_dst();
+                if la == lb && la < 64 && cb >= ca && cb < 4096 {
+                    let ident = *cx.rng.pick(&["foo", "$", "_a$1", "é", "𝒳y", "日本", "a\u{200d}b"]);
+                    let mut line = String::new();
+                    let mut units = 0usize;
+                    let pad = *cx.rng.pick(&[" ", " ", ";", "é", "👌"]);
+                    while units < ca as usize {
+                        if pad == "👌" && units + 2 > ca as usize {
+                            line.push(' ');
+                            units += 1;
+                        } else {
+                            line.push_str(pad);
+                            units += pad.chars().map(char::len_utf16).sum::<usize>();
+                        }
+                    }
+                    line.push_str("function");
+                    units += 8;
+                    while units < cb as usize {
+                        line.push(' ');
+                        units += 1;
+                    }
+                    if units == cb as usize {
+                        line.push_str(ident);
+                    }
+                    line.push_str("(){}");
+                    let mut text = String::new();
+                    for _ in 0..la {
+                        text.push_str(*cx.rng.pick(&["\n", "\r\n", "x\n"]));
+                    }
+                    text.push_str(&line);
+                    let sv = SourceView::from_string(text);
+                    cx.call("SourceMap::get_original_function_name");
+                    let r = sm.get_original_function_name(lb, cb, ident, &sv);
+                    cx.note_str(r);
+                    cx.call("SourceView::get_original_function_name");
+                    let r = sv.get_original_function_name(b, ident);
+                    cx.note_str(r);
+                    // and a few tokens further on the same line, so that the walk-back passes here
+                    if let Some(c2) = sm.get_token((i + 2).min(ntok - 1)) {
+                        let r = sv.get_original_function_name(c2, ident);
+                        cx.note_str(r);
+                    }
+                }
+            }
+        }
+    }
     if on(6) {
         let extra = make_views(cx);
         let vs = views(cx, sm, &extra);
@@ -317,7 +397,7 @@ pub fn regular(cx: &mut Ctx, sm: &SourceMap, full: bool) {
         }
     }
     if on(7) && cx.depth < 2 {
-        let prefixes: [&[&str]; 6] = [&[], &["~"], &["a"], &["/abs/", "http://h/", "~"], &["root/"], &["", "~"]];
+        let prefixes = &PREFIXES;
         let combos: Vec<(bool, bool, usize)> = if full {
             let mut v = Vec::new();
             for a in [false, true] {
@@ -343,6 +423,20 @@ pub fn regular(cx: &mut Ctx, sm: &SourceMap, full: bool) {
                     regular(cx, &out, false);
                     cx.depth -= 2;
                     serialise_regular(cx, &out, "rewritten map");
+                    if cx.rng.chance(1, 3) {
+                        // a second stage with other options (rewrite of a rewritten map)
+                        let opts2 = RewriteOptions {
+                            with_names: !with_names,
+                            with_source_contents: !with_source_contents,
+                            strip_prefixes: PREFIXES[cx.rng.below_usize(PREFIXES.len())],
+                            ..Default::default()
+                        };
+                        cx.call("SourceMap::rewrite (second stage)");
+                        if let Ok(out2) = out.rewrite(&opts2) {
+                            cx.digest.u64(out2.get_token_count() as u64);
+                            serialise_regular(cx, &out2, "twice rewritten map");
+                        }
+                    }
                 }
                 Err(_) => cx.digest.u64(0),
             }
@@ -480,7 +574,7 @@ pub fn hermes(cx: &mut Ctx, smh: &SourceMapHermes, full: bool) {
     }
     if cx.depth < 2 {
         for _ in 0..2 {
-            let opts = RewriteOptions { with_names: cx.rng.chance(1, 2), with_source_contents: cx.rng.chance(1, 2), strip_prefixes: if cx.rng.chance(1, 2) { &["~"] } else { &[] }, ..Default::default() };
+            let opts = RewriteOptions { with_names: cx.rng.chance(1, 2), with_source_contents: cx.rng.chance(1, 2), strip_prefixes: PREFIXES[cx.rng.below_usize(PREFIXES.len())], ..Default::default() };
             cx.call("SourceMapHermes::clone");
             let copy = smh.clone();
             cx.call("SourceMapHermes::rewrite");
@@ -494,6 +588,13 @@ pub fn hermes(cx: &mut Ctx, smh: &SourceMapHermes, full: bool) {
                         cx.note_str(r);
                     }
                 }
+                for _ in 0..4 {
+                    let off = if cx.rng.chance(1, 4) { *cx.rng.pick(&POS_EXTREMES[..]) } else { cx.rng.below(200) as u32 };
+                    cx.call("SourceMapHermes::get_original_function_name");
+                    let r = out.get_original_function_name(off);
+                    cx.note_str(r);
+                }
+                regular(cx, &out, false);
                 if max_line(&out) < LINE_BOUND {
                     let mut buf = Vec::new();
                     cx.call("SourceMapHermes::to_writer");
@@ -582,16 +683,22 @@ pub fn index(cx: &mut Ctx, smi: &SourceMapIndex, full: bool) {
             regular(cx, &flat, full);
             cx.depth -= 1;
         }
-        Err(_) => cx.digest.u64(0),
+        Err(e) => cx.note_err(&e),
     }
     if cx.depth < 2 {
-        let opts = RewriteOptions { with_names: cx.rng.chance(1, 2), with_source_contents: cx.rng.chance(1, 2), strip_prefixes: if cx.rng.chance(1, 2) { &["~"] } else { &[] }, ..Default::default() };
+        let opts = RewriteOptions { with_names: cx.rng.chance(1, 2), with_source_contents: cx.rng.chance(1, 2), strip_prefixes: PREFIXES[cx.rng.below_usize(PREFIXES.len())], ..Default::default() };
         cx.call("SourceMapIndex::clone");
         let copy = smi.clone();
         cx.call("SourceMapIndex::flatten_and_rewrite");
-        if let Ok(out) = copy.flatten_and_rewrite(&opts) {
-            cx.digest.u64(out.get_token_count() as u64);
-            serialise_regular(cx, &out, "flattened and rewritten map");
+        match copy.flatten_and_rewrite(&opts) {
+            Ok(out) => {
+                cx.digest.u64(out.get_token_count() as u64);
+                cx.depth += 2;
+                regular(cx, &out, false);
+                cx.depth -= 2;
+                serialise_regular(cx, &out, "flattened and rewritten map");
+            }
+            Err(e) => cx.note_err(&e),
         }
     }
     if index_serialisable(smi) {
